@@ -169,11 +169,54 @@ def _direct_nested_defs(fnode):
     return out
 
 
+_LOG_LEVELS = ("debug", "info", "warning", "warn", "error", "critical", "exception", "log")
+_PURE_FUNCS = {"len", "str", "repr", "int", "float", "round", "type", "list", "tuple", "sorted", "abs", "min", "max", "sum"}
+_PURE_METHODS = {"format", "join", "items", "keys", "values", "sum", "mean", "min", "max", "std", "total_seconds", "get", "tolist", "item"}
+
+
+def _effect_free_log_call(st) -> bool:
+    if not (isinstance(st, ast.Expr) and isinstance(st.value, ast.Call)):
+        return False
+    c = st.value
+    if not (isinstance(c.func, ast.Attribute) and c.func.attr in _LOG_LEVELS and isinstance(c.func.value, ast.Name) and c.func.value.id == "logger"):
+        return False
+    for a in list(c.args) + [k.value for k in c.keywords]:
+        for n in ast.walk(a):
+            if isinstance(n, ast.Call):
+                f = n.func
+                if isinstance(f, ast.Name) and f.id in _PURE_FUNCS:
+                    continue
+                if isinstance(f, ast.Attribute) and (f.attr in _PURE_METHODS or (isinstance(f.value, ast.Name) and f.value.id in ("np", "numpy"))):
+                    continue
+                return False
+            if isinstance(n, (ast.NamedExpr, ast.Await, ast.Yield, ast.YieldFrom)):
+                return False
+    return True
+
+
+def _strip_logging(tree):
+    for node in ast.walk(tree):
+        for field in ("body", "orelse", "finalbody"):
+            stmts = getattr(node, field, None)
+            if not isinstance(stmts, list) or not stmts or not isinstance(stmts[0], ast.stmt):
+                continue
+            kept = [s for s in stmts if not _effect_free_log_call(s)]
+            if len(kept) == len(stmts):
+                continue
+            if not kept and field == "body":
+                kept = [ast.copy_location(ast.Pass(), stmts[0])]
+            setattr(node, field, kept)
+
+
 class Program:
-    def __init__(self, repo: str = "/repo", overrides: Optional[Dict[str, str]] = None):
+    def __init__(self, repo: str = "/repo", overrides: Optional[Dict[str, str]] = None, strip_logging: bool = False):
         """`overrides` maps repo-relative paths to replacement source text
-        (in-memory scratch variants used by the mutation self-test)."""
+        (in-memory scratch variants used by the mutation self-test).
+        `strip_logging` removes effect-free module-logger statements from every
+        body before anything is indexed, so that no structural rule depends on
+        where log lines sit (C20, which types the log calls too, keeps them)."""
         self.overrides = overrides or {}
+        self.strip_logging = strip_logging
         self.repo = os.path.abspath(repo)
         self.pkgdir = os.path.join(self.repo, PKG)
         self.modules: Dict[str, ModuleInfo] = {}
@@ -210,6 +253,8 @@ class Program:
                     tree = ast.parse(source, filename=path)
                 except SyntaxError as e:
                     raise AnalysisError(f"cannot parse {rel}: {e}")
+                if self.strip_logging:
+                    _strip_logging(tree)
                 m = ModuleInfo(modname, path, rel, source, tree, is_pkg)
                 self.modules[modname] = m
                 self._index_module(m)
